@@ -110,7 +110,7 @@ def may_locate(pols, user, groups, owner, otype_name, pname):
 
 
 # ---------------------------------------------------------------------------------------------- store plans
-def gen_plan(rng, n, epoch=False):
+def gen_plan(rng, n, epoch=False, doctored=False):
     """A JSON-able plan: list of object descriptions, created in order."""
     plan = []
     name_pool = ['k1', 'k2', 'web', 'db', 'shared name']
@@ -139,6 +139,8 @@ def gen_plan(rng, n, epoch=False):
             o['mask'] = []
         if epoch and rng.random() < 0.5:
             o['at_epoch'] = True
+        if doctored and 'len' in o and rng.random() < 0.6:
+            o['null'] = rng.choice(['len', 'alg', 'both'])
         plan.append(o)
     return plan
 
@@ -229,6 +231,18 @@ class Store:
                             eng.request([kdrv.revoke(u, enums.RevocationReasonCode.KEY_COMPROMISE)], version=(1, 4), user=o['owner'])
             self.created += uids
             eng.clock.t += o['advance']
+            if o.get('null'):
+                # rows the protocol cannot produce (NULL length / absent algorithm): exercise the `attribute is None: continue` branch
+                con = sqlite3.connect(eng.path)
+                try:
+                    for u in uids:
+                        if o['null'] in ('len', 'both'):
+                            con.execute('update keys set cryptographic_length = NULL where uid = ?', (int(u),))
+                        if o['null'] in ('alg', 'both'):
+                            con.execute('update keys set cryptographic_algorithm = -1 where uid = ?', (int(u),))
+                    con.commit()
+                finally:
+                    con.close()
 
     def _read_dump(self):
         d = self.eng.dump()
@@ -255,7 +269,7 @@ class Store:
             objs.append({'uid': u, 'type': r['object_type'], 'owner': r['owner'], 'policy': r['operation_policy_name'],
                          'sensitive': bool(r['sensitive']), 'idate': r['initial_date'],
                          'state': c.get('state', 0) or 0, 'mask': c.get('cryptographic_usage_mask', 0) or 0,
-                         'alg': k.get('cryptographic_algorithm'), 'len': k.get('cryptographic_length'),
+                         'alg': (None if k.get('cryptographic_algorithm') == -1 else k.get('cryptographic_algorithm')), 'len': k.get('cryptographic_length'),
                          'certtype': ce.get('certificate_type', 0) or 0,
                          'names': [x['name'] for x in sorted(names.get(u, []), key=lambda x: x['id'])],
                          'groups': [groups[x['object_group_id']] for x in gmap.get(u, [])],
@@ -312,6 +326,8 @@ def filter_to_attr(f):
         return kdrv.attr(AT.CRYPTOGRAPHIC_LENGTH, f[1])
     if k == 'mask':
         return kdrv.attr(AT.CRYPTOGRAPHIC_USAGE_MASK, [enums.CryptographicUsageMask[m] for m in f[1]])
+    if k == 'maskraw':      # a mask with bits outside enums.CryptographicUsageMask
+        return kdrv.raw_attr('Cryptographic Usage Mask', kdrv.cattrs.CryptographicUsageMask(f[1]))
     if k == 'policy':
         return kdrv.attr(AT.OPERATION_POLICY_NAME, f[1])
     if k == 'group':
@@ -353,6 +369,8 @@ def filter_to_coq(f):
         return '(FLen %s)' % cp.z(f[1])
     if k == 'mask':
         return '(FMask %s)' % cp.z(mask_bits(f[1]))
+    if k == 'maskraw':
+        return '(FMask %s)' % cp.z(f[1])
     if k == 'policy':
         return '(FPolicy %s)' % cp.string(f[1])
     if k == 'group':
@@ -405,7 +423,7 @@ def gen_filter(rng, kind, store):
     if kind == 'certtype':
         return ['certtype', rng.choice(['X_509', 'X_509', 'PGP'])]
     if kind == 'uid':
-        pool = [str(o['uid']) for o in objs] * 3 + ['0', '01', '999', 'abc', '-1']
+        pool = [str(o['uid']) for o in objs] * 2 + ['0' + str(o['uid']) for o in objs] + ['0', '999', 'abc', '-1']
         return ['uid', rng.choice(pool)]
     if kind == 'sensitive':
         return ['sensitive', rng.choice([True, False])]
@@ -415,6 +433,9 @@ def gen_filter(rng, kind, store):
         return ['date', d]
     if kind == 'other':
         return ['other', rng.choice(sorted(OTHER_FILTERS))]
+    if kind == 'maskraw':
+        have = [m.value for o in objs for m in MASKS if o['mask'] & m.value] or [4]
+        return ['maskraw', rng.choice(have) | rng.choice([1 << 24, 1 << 30, (1 << 25) | (1 << 26)])]
     raise KeyError(kind)
 
 
@@ -422,14 +443,18 @@ def gen_filter_matching(rng, kind, o):
     """A filter of this kind that object row `o` satisfies (None when there is none)."""
     tname = OT(o['type']).name
     if kind == 'name':
-        return ['name', rng.choice(o['names']), 'UNINTERPRETED_TEXT_STRING'] if o['names'] else None
+        return ['name', rng.choice(o['names']), rng.choice(['UNINTERPRETED_TEXT_STRING'] * 5 + ['URI'])] if o['names'] else None
     if kind == 'state':
         return ['state', enums.State(o['state']).name] if tname != 'OPAQUE_DATA' else None
     if kind == 'otype':
         return ['otype', tname]
     if kind == 'alg':
+        if tname in KEY_TYPES and o['alg'] is None:
+            return ['alg', 'DSA']          # doctored row: the filter is skipped
         return ['alg', enums.CryptographicAlgorithm(o['alg']).name] if o['alg'] is not None else None
     if kind == 'len':
+        if tname in KEY_TYPES and o['len'] is None:
+            return ['len', 512]
         return ['len', o['len']] if o['len'] is not None else None
     if kind == 'mask':
         if tname == 'OPAQUE_DATA':
@@ -445,17 +470,19 @@ def gen_filter_matching(rng, kind, o):
     if kind == 'certtype':
         return ['certtype', enums.CertificateType(o['certtype']).name] if tname == 'CERTIFICATE' else None
     if kind == 'uid':
-        return ['uid', str(o['uid'])]
+        return ['uid', rng.choice([''] * 6 + ['0']) + str(o['uid'])]
     if kind == 'sensitive':
         return ['sensitive', o['sensitive']]
     if kind == 'date':
         return ['date', o['idate']]
+    if kind == 'other':
+        return ['other', rng.choice(sorted(OTHER_FILTERS))]
     return None
 
 
 def gen_filters(rng, store, req):
     n = rng.choice([0, 1, 1, 1, 2, 2, 2, 3, 3, 4])
-    kinds = list(FILTER_KINDS) + ['otype', 'other']
+    kinds = list(FILTER_KINDS) + ['otype', 'other'] + (['maskraw'] if rng.random() < 0.3 else [])
     visible = [o for o in store.objs if may_locate(store.pols, req[0], req[1], o['owner'], OT(o['type']).name, o['policy'])]
     target = rng.choice(visible) if visible and rng.random() < 0.85 else None
     fs = []
@@ -558,7 +585,7 @@ def oracle_matches(a, f):
 def oracle_expected(store, req, fs):
     """Set of uids the property demands (None when the request is outside the property: >2 dates, unsupported filter)."""
     dates = [f[1] for f in fs if f[0] == 'date']
-    if len(dates) > 2 or any(f[0] == 'other' for f in fs):
+    if len(dates) > 2 or any(f[0] in ('other', 'maskraw') for f in fs):
         return None
     want = set()
     for o in store.objs:
@@ -610,6 +637,9 @@ def oracle_check(ctx, store, req, fs, off, mx, version, obs, full_obs):
     ids = [int(x) for x in obs['ids']]
     if any(o.get('idate') == 0 for o in store.objs):
         ctx.count('oracle.skipped.epoch_store')
+        return False
+    if any(o.get('null') for o in store.plan):
+        ctx.count('oracle.skipped.doctored_store')
         return False
     # newest first (non-increasing Initial Date); no identifier twice
     if any(idate[a] < idate[b] for a, b in zip(ids, ids[1:])) and (off is None or off >= 0) and (mx is None or mx >= 0):
@@ -732,6 +762,78 @@ def run_store(ctx, rng, idx, plan, pols, n_requests, cases, meta, defs, epoch=Fa
         store.close()
 
 
+GRID_PLAN = [
+    {'type': 'SYMMETRIC_KEY', 'how': 'create', 'alg': 'AES', 'len': 256, 'owner': 'alice', 'policy': 'open', 'names': [['k1', 'UNINTERPRETED_TEXT_STRING'], ['web', 'URI']],
+     'groups': ['grpA', 'prod'], 'asi': [['ssl', 'www.example.com']], 'sensitive': True, 'mask': ['DECRYPT', 'ENCRYPT'], 'state': 'ACTIVE', 'advance': 1},
+    {'type': 'PUBLIC_KEY', 'alg': 'RSA', 'len': 2048, 'owner': 'alice', 'policy': 'open', 'names': [['k2', 'UNINTERPRETED_TEXT_STRING']], 'groups': ['grpB'],
+     'asi': [], 'sensitive': None, 'mask': ['VERIFY'], 'state': 'PRE_ACTIVE', 'advance': 0},
+    {'type': 'PRIVATE_KEY', 'alg': 'RSA', 'len': 2048, 'owner': 'alice', 'policy': 'open', 'names': [['k2', 'UNINTERPRETED_TEXT_STRING']], 'groups': ['grpB'],
+     'asi': [['ldap', 'uid=7']], 'sensitive': True, 'mask': ['SIGN'], 'state': 'DEACTIVATED', 'advance': 2},
+    {'type': 'SPLIT_KEY', 'alg': 'AES', 'len': 128, 'owner': 'alice', 'policy': 'open', 'names': [], 'groups': [], 'asi': [], 'sensitive': False,
+     'mask': ['ENCRYPT'], 'state': 'COMPROMISED', 'advance': 0},
+    {'type': 'SECRET_DATA', 'owner': 'alice', 'policy': 'open', 'names': [['db', 'UNINTERPRETED_TEXT_STRING']], 'groups': ['prod'], 'asi': [['ssl', 'db.example.com']],
+     'sensitive': None, 'mask': ['DERIVE_KEY', 'EXPORT'], 'state': 'ACTIVE', 'advance': 0},
+    {'type': 'OPAQUE_DATA', 'owner': 'alice', 'policy': 'open', 'names': [['shared name', 'UNINTERPRETED_TEXT_STRING']], 'groups': ['grpA'], 'asi': [['ssl', 'www.example.com']],
+     'sensitive': True, 'mask': [], 'state': 'PRE_ACTIVE', 'advance': 3},
+    {'type': 'KEY_PAIR', 'alg': 'RSA', 'len': 1024, 'owner': 'bob', 'policy': 'default', 'names': [], 'groups': ['grpA'], 'asi': [], 'sensitive': None,
+     'mask': [], 'state': 'PRE_ACTIVE', 'advance': 1},
+    {'type': 'SYMMETRIC_KEY', 'how': 'register', 'alg': 'TRIPLE_DES', 'len': 192, 'owner': 'bob', 'policy': 'team', 'names': [['k1', 'UNINTERPRETED_TEXT_STRING']],
+     'groups': [], 'asi': [], 'sensitive': False, 'mask': ['MAC_GENERATE', 'MAC_VERIFY'], 'state': 'PRE_ACTIVE', 'advance': 0},
+]
+GRID_CERT = {'type': 'CERTIFICATE', 'owner': 'alice', 'policy': 'open', 'names': [['web', 'UNINTERPRETED_TEXT_STRING']], 'groups': ['prod'], 'asi': [],
+             'sensitive': False, 'mask': ['VERIFY', 'CERTIFICATE_SIGN'], 'state': 'ACTIVE', 'advance': 1}
+
+
+def grid_requests(rng, store):
+    """Every filter kind aimed at every stored object (matching value and a near miss), plus fixed scenarios."""
+    out = []
+    reqs = [('alice', None), ('bob', None), ('carol', ['g1'])]
+    for o in store.objs:
+        for kind in FILTER_KINDS + ['other']:
+            f = gen_filter_matching(rng, kind, o)
+            if f is None:
+                f = gen_filter(rng, kind, store)       # e.g. a certificate-type filter aimed at a key: inapplicable
+            out.append((reqs[0], [f]))
+            out.append((rng.choice(reqs), [f, gen_filter(rng, rng.choice(FILTER_KINDS), store)]))
+    dates = sorted({o['idate'] for o in store.objs})
+    lo, hi = dates[0], dates[-1]
+    mid = dates[len(dates) // 2]
+    for ds in ([lo, hi], [hi, lo], [mid, mid], [mid, hi], [lo - 5, lo - 1], [hi + 1, hi + 9], [mid], [mid + 1], [lo, mid, hi], [hi, hi, hi]):
+        out.append((reqs[0], [['date', d] for d in ds]))
+        out.append((reqs[1], [['otype', 'PUBLIC_KEY']] + [['date', d] for d in ds]))
+    out.append((('dave', None), [['date', lo], ['date', mid], ['date', hi]]))            # nothing visible: the third date goes unnoticed
+    out.append((reqs[0], [['otype', 'TEMPLATE'], ['date', lo], ['date', mid], ['date', hi]]))
+    out.append((reqs[0], [['otype', 'SYMMETRIC_KEY'], ['len', 256]]))
+    out.append((reqs[0], [['len', 256], ['otype', 'SYMMETRIC_KEY']]))
+    out.append((reqs[0], [['certtype', 'X_509'], ['alg', 'RSA']]))
+    return out
+
+
+def run_grid(ctx, rng, idx, plan, pols, cases, meta, defs):
+    store = Store(ctx, plan, pols)
+    try:
+        sname = 'store_%d' % idx
+        defs.append('Definition %s : list obj := %s.' % (sname, cp.lst(store.objs, obj_to_coq).replace('; (mkObj', ';\n   (mkObj')))
+        for req, fs in grid_requests(rng, store):
+            version = rng.choice(kdrv.VERSIONS)
+            full_obs = run_locate(store, req, fs, None, None, version)
+            n_full = len(full_obs['ids']) if full_obs['ids'] is not None else 2
+            for (off, mx) in [(None, None), (1, None), (None, 1), (0, n_full), (1, max(n_full - 1, 0)), (n_full, 1)][:rng.choice([1, 2, 3, 6])]:
+                obs = full_obs if (off is None and mx is None) else run_locate(store, req, fs, off, mx, version)
+                cases.append(case_to_coq(sname, req, fs, off, mx, obs))
+                meta.append({'store': idx, 'plan': plan, 'requester': list(req), 'filters': fs, 'offset': off, 'maximum': mx,
+                             'version': list(version), 'observed': obs, 'objs': store.objs})
+                ctx.case_seen((idx, req, fs, off, mx), nontrivial=True)
+                ctx.count('grid.%s' % ('failed.' + str(obs['reason']) if obs['ids'] is None else ('empty' if not obs['ids'] else 'nonempty')))
+                for f in fs:
+                    ctx.count('filter.' + f[0])
+                oracle_check(ctx, store, req, fs, off, mx, version, obs, full_obs)
+            if full_obs['ids']:
+                pages_check(ctx, store, req, fs, version, full_obs, rng.choice([1, 2, 3]))
+    finally:
+        store.close()
+
+
 def run(ctx):
     ctx.cov['rule'] = ('stores of 0-12 objects built through Register/Create/CreateKeyPair/Activate/Revoke under a controlled clock '
                        '(7 object types, 3 owners, 7 policy names incl. group sections, missing and refusing policies, 4 states, names with both name types, '
@@ -748,11 +850,15 @@ def run(ctx):
     n_stores = 36 if quick else 160
     n_requests = 14 if quick else 30
     sizes = [0, 1, 2, 3, 5, 8, 12]
+    # fixed grid first: every filter kind x every stored type, without and with a certificate in sight
+    run_grid(ctx, rng, 9000, GRID_PLAN, pols, cases, meta, defs)
+    run_grid(ctx, rng, 9001, GRID_PLAN[:4] + [GRID_CERT] + GRID_PLAN[4:], pols, cases, meta, defs)
     for idx in range(n_stores):
         n = sizes[idx] if idx < len(sizes) else rng.choice([2, 3, 4, 5, 6, 7, 8, 9, 10, 12])
         epoch = (idx % 9 == 8)
-        plan = gen_plan(rng, n, epoch=epoch)
-        run_store(ctx, rng, idx, plan, pols, n_requests, cases, meta, defs, epoch=epoch)
+        doctored = (idx % 9 == 7)
+        plan = gen_plan(rng, n, epoch=epoch, doctored=doctored)
+        run_store(ctx, rng, idx, plan, pols, n_requests, cases, meta, defs, epoch=epoch or doctored)
     header = HEADER + '\n'.join(defs) + '\n'
     bad = ctx.run_cases('locate', header, cases, 'check_case',
                         what='Locate.locate_model (allowed_of policies requester) vs KmipEngine._process_locate: identifier list in order, failures as one class')
@@ -761,10 +867,82 @@ def run(ctx):
         ctx.disagreement('locate', {k: m[k] for k in ('plan', 'requester', 'filters', 'offset', 'maximum', 'version', 'observed', 'objs')},
                          model_says=ctx.model_output(header, 'model_of_case %s' % cases[i]) if i == bad[0] else None,
                          impl_says=m['observed'])
+    shrink_first_violation(ctx)
     ctx.cov['trusted_extra'] = [
         'harness/c14.py: store read-back from raw SQL rows (model input), GetAttributes read-back and policy reading (oracle input), printers to Coq terms',
         'hand model coq/theories/Locate/Locate.v of _process_locate and its helpers, tied by the correspondence above on every run; '
         'applicability comes from the generated rule table (tie T)']
+
+
+class _Collect:
+    """Stands in for ctx while the shrinker re-evaluates the oracle."""
+    def __init__(self):
+        self.hits = []
+
+    def violation(self, sig, w, what):
+        self.hits.append((sig, w, what))
+        return 'new'
+
+    def count(self, *a, **k):
+        pass
+
+
+def violates(ctx, plan, req, fs, off, mx, version, kind, page_size=None):
+    col = _Collect()
+    try:
+        store = Store(ctx, plan, build_policies())
+    except RuntimeError:
+        return None
+    try:
+        full = run_locate(store, req, fs, None, None, version)
+        obs = full if (off is None and mx is None) else run_locate(store, req, fs, off, mx, version)
+        oracle_check(col, store, req, fs, off, mx, version, obs, full)
+        if page_size:
+            pages_check(col, store, req, fs, version, full, page_size)
+    finally:
+        store.close()
+    for sig, w, what in col.hits:
+        if sig.get('kind') == kind:
+            return sig, w, what
+    return None
+
+
+def shrink_first_violation(ctx):
+    """Greedy one-at-a-time removal of stored objects and filters while the same kind of violation persists."""
+    if not ctx.violations:
+        return
+    v = ctx.violations[0]
+    w = v['witness']
+    kind = v['signature'].get('kind')
+    if 'plan' not in w or kind is None:
+        return
+    plan, fs = list(w['plan']), list(w['filters'])
+    req = (w['requester'][0], w['requester'][1])
+    off, mx, version, ps = w.get('offset'), w.get('maximum'), tuple(w.get('version') or (1, 2)), w.get('page_size')
+    best, budget, changed = None, 80, True
+    while changed and budget > 0:
+        changed = False
+        for i in range(len(plan) - 1, -1, -1):
+            cand = plan[:i] + plan[i + 1:]
+            budget -= 1
+            r = violates(ctx, cand, req, fs, off, mx, version, kind, ps)
+            if r:
+                plan, best, changed = cand, r, True
+            if budget <= 0:
+                break
+        for j in range(len(fs) - 1, -1, -1):
+            cand = fs[:j] + fs[j + 1:]
+            budget -= 1
+            r = violates(ctx, plan, req, cand, off, mx, version, kind, ps)
+            if r:
+                fs, best, changed = cand, r, True
+            if budget <= 0:
+                break
+    if best:
+        sig, w2, what = best
+        w2['shrunk_from'] = {'objects': len(w['plan']), 'filters': len(w['filters'])}
+        v['witness'], v['what'] = w2, what
+        ctx.log('shrunk the first violation to %d objects, %d filters' % (len(plan), len(fs)))
 
 
 def replay(ctx, payload):
